@@ -9,6 +9,7 @@ CONSTANT RoleMenu <- RMa
 CONSTANT DocMenu <- DMg2
 CONSTANT Lims <- L012
 CONSTANT MaxSteps = 10
+CONSTANT Thin = 1
 CONSTANT PageGap = TRUE
 SPECIFICATION SimSpec
 INVARIANT SimExport
